@@ -49,7 +49,7 @@ EDGES = [
      "regions are non-empty: mmap refuses size 0 and build_raw is unsafe; region size is configuration, not guest data"),
     (r"^guest_memory::GuestMemoryRegion::last_addr$", r"unchecked_addr", r"Address::unchecked_add\(GuestMemoryRegion::start_addr\(\$1\),", "N",
      "start + (len-1) cannot overflow: GuestRegionMmap::new refuses base+size overflow (C10 R10.5)"),
-    (r"^guest_memory::GuestMemory::to_region_addr::\{closure#0\}$", r"unwrap", r"^Option::unwrap\(GuestMemoryRegion::to_region_addr\(\$2,\$1\.0\)\)$", "N",
+    (r"^guest_memory::GuestMemory::to_region_addr$", r"unwrap", r"^Option::unwrap\(GuestMemoryRegion::to_region_addr\(ok\(GuestMemory::find_region\(\$1,\$2\)\),\$2\)\)$", "N",
      "find_region(addr) returned this region, so addr is inside it (C02 R2.1/R2.2)"),
     (r"^guest_memory::GuestMemory::try_access$", r"unwrap", r"^Option::unwrap\(GuestMemoryRegion::to_region_addr\(ok\(GuestMemory::find_region\(\$1,var\)\),var\)\)$", "N",
      "find_region(cur) returned this region for the same cur (C02 R2.1/R2.2)"),
@@ -57,7 +57,7 @@ EDGES = [
      "to_region_addr only returns offsets < len (address_in_range strictness, C02 R2.1)"),
     (r"^guest_memory::GuestMemory::try_access$", r"Overflow:Sub", r"^\$2,var$", "N",
      "loop invariant total < count: total is only reassigned from `Some(x) if x < count` (C03 R3.1)"),
-    (r"^guest_memory::(write|read)::\{closure#0\}$", r"index", r"^index::index(_mut)?\(\$1\.0,RangeFrom\{\$2\}\)$", "N",
+    (r"^guest_memory::(write|read)$", r"index", r"^index::index(_mut)?\(\$2,RangeFrom\{<closure-arg2>\}\)$", "N",
      "closure parameter 0 is try_access's running total, which is < count = buf.len() (C03 R3.1/R3.2)"),
     # ------------------------------------------------------------------ io.rs
     (r"^io::(read|write)_volatile_raw_fd$", r"unwrap", r"^Result::unwrap\(TryInto::try_into\(libc::(read|write)\(", "I",
@@ -84,7 +84,7 @@ EDGES = [
     # ------------------------------------------------------------------ mmap/mod.rs
     (r"^<mmap::GuestRegionMmap<B> as bytes::Bytes<guest_memory::MemoryRegionAddress>>::\w+$", r"unwrap", r"^Result::unwrap\(GuestMemoryRegion::as_volatile_slice\(\$1\)\)$", "N",
      "as_volatile_slice = get_slice(0, len()) which is in range for every region (C01 R1.3: end <= len accepted)"),
-    (r"^<mmap::GuestRegionMmap<B> as guest_memory::GuestMemoryRegion>::get_host_address::\{closure#0\}$", r"silent_wrap", r"^mut_ptr::wrapping_offset\(MmapRegion::as_ptr\(\$1\.0\.mapping\),Address::raw_value\(\$2\)\)$", "N",
+    (r"^<mmap::GuestRegionMmap<B> as guest_memory::GuestMemoryRegion>::get_host_address$", r"silent_wrap", r"^mut_ptr::wrapping_offset\(MmapRegion::as_ptr\(\$1\.mapping\),Address::raw_value\(ok\((Option::ok_or\()?GuestMemoryRegion::check_address\(\$1,\$2\)", "N",
      "the offset is the address accepted by check_address in the enclosing body (C02 R2.3), so it is < len and cannot wrap"),
     (r"^mmap::GuestMemoryMmap::from_arc_regions$", r"BoundsCheck", r"slice::windows\(Deref::deref\(\$1\),2\)\)\)\)\),[01]$", "I",
      "windows(2) yields slices of length exactly 2; indices 0 and 1"),
@@ -97,8 +97,6 @@ EDGES = [
     (r"^<mmap::GuestMemoryMmap<B> as guest_memory::GuestMemory>::find_region$", r"index", r"^Index::index\(\$1\.regions,\(slice::binary_search_by_key\(Deref::deref\(\$1\.regions\),\$2,.*\)@Err Sub 1\)\.0\)$", "I",
      "Err(x) of binary_search has x <= len and x > 0 dominates, so x-1 < len",
      r"(Gt|Ne)\(slice::binary_search_by_key\(.*\)@Err,0\)"),
-    (r"^<mmap::GuestMemoryMmap<B> as guest_memory::GuestMemory>::find_region::\{closure#1\}$", r"index", r"^Index::index\(\$1\.0\.regions,\$2\)$", "I",
-     "index is Ok(x) of the binary search or the x-1 just checked"),
     # ------------------------------------------------------------------ mmap/unix.rs, mmap/xen.rs (management / environment)
     (r"^mmap::unix::MmapRegionBuilder::build_raw$", r"Overflow:Sub", r"^libc::sysconf\(30\),1$", "M", "page size from sysconf is >= 1"),
     (r"^mmap::unix::MmapRegionBuilder::build_raw$", r"unwrap", r"^Option::unwrap\(\$1\.raw_ptr\)$", "N",
@@ -169,7 +167,7 @@ LOOPS = [
      "outer loop: buffer shrinks by n > 0 each round (Ok(0) leaves with an error); inner loop: retry_eintr!"),
     (r"^guest_memory::GuestMemory::try_access$", "try_access",
      "progress loop: Ok(0) returns; otherwise total strictly grows and the loop continues only while total < count"),
-    (r"^volatile_memory::copy_slice_impl::copy_slice_volatile::\{closure#0\}$", "stepping",
+    (r"^volatile_memory::copy_slice_impl::copy_slice_volatile$", "stepping",
      "while left >= w { left -= w }: w is one of the constants 8/4/2/1 (> 0)"),
 ]
 
